@@ -84,6 +84,7 @@ func runBatch() {
 			os.Exit(3)
 		}
 	}
+	abandon := false
 	for idx := from; idx < to; idx++ {
 		fmt.Printf("sequence %d starts\n", idx) // logged before it runs
 		done := make(chan *seqResult, 1)
@@ -112,6 +113,7 @@ func runBatch() {
 			out.Fatal = append(out.Fatal, r.Fatal)
 			break
 		}
+		abandon = abandon || r.AbandonBatch
 		if r.Fatal != "" && !strings.HasPrefix(r.Fatal, "stop:") {
 			out.Fatal = append(out.Fatal, r.Fatal)
 		}
@@ -130,11 +132,19 @@ func runBatch() {
 			}
 			bv.Count++
 		}
+		if abandon {
+			// a goroutine of that sequence cannot be stopped (see releaseSpinner): what was decided so far is written
+			// now, before it can take the process down
+			break
+		}
 	}
 	for i := range out.Violations {
 		out.Violations[i].Count = byClass[out.Violations[i].Class].Count
 	}
 	write()
+	if abandon {
+		os.Exit(0)
+	}
 }
 
 // runScript replays one event list given in text form and prints the trace: `c08 script "a3 s s lr:back1 s a1 s"`.
